@@ -144,6 +144,31 @@ pub fn programs() -> Vec<Prog> {
     p.push(Some("g"), Stmt::Fill(Lit::hex(0xFFFF)));
     v.push(Prog::new("jump-to-xFFFF", p, true));
     v.push(shared_return_address());
+    // (new programs go at the end: C14 uses programs()[0])
+    // the "skip return" idiom: the inner subroutine returns to the word after the one its caller
+    // would continue at, so a step over the inner call never sees PC at the expected return
+    // address, and the outer RET is a return without a counted call
+    let mut p = Program::default();
+    p.push(None, Stmt::Jsr(lbl("f")));
+    p.push(None, Stmt::Add(0, 0, Src2::Imm(Lit::dec(1))));
+    p.push(Some("end"), Stmt::Named(0x25, "halt"));
+    p.push(Some("f"), Stmt::Add(6, 7, Src2::Imm(Lit::dec(0))));
+    p.push(Some("site"), Stmt::Jsr(lbl("g")));
+    p.push(None, Stmt::Named(0x25, "halt"));
+    p.push(Some("after"), Stmt::Add(7, 6, Src2::Imm(Lit::dec(0))));
+    p.push(None, Stmt::Ret);
+    p.push(Some("g"), Stmt::Add(7, 7, Src2::Imm(Lit::dec(1))));
+    p.push(None, Stmt::Ret);
+    v.push(Prog::new("skip-return", p, true));
+    // a subroutine call in the last word of user space: the return address is xFE00
+    let mut p = Program::default();
+    p.items.push(Item::Orig(Lit::hex(0xFDFB)));
+    p.push(None, Stmt::And(0, 0, Src2::Imm(Lit::dec(0))));
+    p.push(None, Stmt::Br(0b111, "brnzp".into(), lbl("site")));
+    p.push(Some("f"), Stmt::Add(0, 0, Src2::Imm(Lit::dec(1))));
+    p.push(None, Stmt::Ret);
+    p.push(Some("site"), Stmt::Jsr(lbl("f")));
+    v.push(Prog::new("call-in-last-word-of-user-space", p, true));
     v
 }
 
